@@ -139,6 +139,11 @@ def iter {F : Type} [Agg.Num F] (c : Cfg) (st : St F) (e : Env) : R (St F × Out
   .ok ({ st with chan := rr.chan, ts := ts, agg := agg },
        { sent := sent, calls := calls, recv := w, polled := rr.polled, published := pub })
 
+/-- `Tracer::clear`: the shared `State` is replaced by a fresh one made from the same limits
+(`make_state_config(max_flows, max_samples)`); the tracing state and the channel are untouched -/
+def clear {F : Type} [Agg.Num F] (acfg : Agg.Cfg) (st : St F) : St F :=
+  { st with agg := Agg.State.new acfg, error := none }
+
 /-- what `Builder::build` + `Tracer` hand to the layers (`make_channel_config`,
 `make_strategy_config`, `make_state_config`) -/
 structure TracerCfg where
